@@ -36,6 +36,8 @@ pub enum Error {
         alignment: usize,
         size: usize,
     },
+    #[error("struct `{parent}` is too large: its size does not fit `usize`")]
+    StructTooLarge { parent: String },
     #[error("struct `{parent}` contains duplicate field names: `{names:?}`")]
     StructFieldSameName { parent: Ident, names: Vec<Ident> },
 }
@@ -78,7 +80,14 @@ impl StructVerifier {
                     });
                 }
 
-                size += i_size * count;
+                // Nested arrays of structs multiply up quickly: refuse instead of overflowing
+                // (a panic in debug builds, a silently wrapped size in release builds).
+                size = i_size
+                    .checked_mul(count)
+                    .and_then(|member| size.checked_add(member))
+                    .ok_or_else(|| Error::StructTooLarge {
+                        parent: r#struct.to_string(),
+                    })?;
                 alignment = alignment.max(i_alignment);
             }
 
